@@ -21,7 +21,7 @@ RULE = ("38 facade methods x every command set whose table offers the command x 
         "inspect.signature of the command class; each supplied argument takes 2 non-default values) x caller buffers of kind bytearray / bytes / memoryview window x 2-3 well-formed device responses chosen to "
         "match the request and 8 truncated ones (a length field announcing more than was transferred: ~500 bytes at offsets 0-1, 0-3, 4-7, 2-3, FFh at 4, FFFEh and 10000h at 0; all bytes FFh); plus every method x set x 10 exception types raised by the device *after* it took the command (exactly one submission, the same exception object reaches the caller) (VPD page by page code, mode page by page code, PR IN data by service action, disc information by data type, READ CD "
         "sectors by selection bits); READ/WRITE(10,12,16) through the real SCSIDevice / ISCSIDevice and the stand-in bindings with transfers of {1,2,7Fh,80h,7FFFh,8000h,8001h,40000,FFFFh} blocks of 512 bytes (one submission, whole buffers, iSCSI expected transfer length = buffer length); 11 methods (reads and writes) as the first call after a re-plug, plain or with the re-open failing once (EACCES/EMFILE/EBUSY), on a real SCSIDevice: one submission to the node now at the path; two facades over two devices (different sets, block sizes 512 / 4096) used alternately A.m, B.m', A.m for every pair of methods and offering sets: own device, own operation code, own block size, same CDB for A before and after; the 12 script invocations shipped under tools/ and examples/ (inquiry, getlbastatus, mtx status/load/unload against a simulated changer, read16, read_cd, read_disc_information, readcapacity10/16, reportluns, reportpriority) run as a user runs them on both transports: no exception, CDB lengths, printed values agree with the device. after every successful call: decode the returned command again, submit it again, repeat the call on the same facade (same CDB, one submission each, equal result, fresh buffers). Non-trivial = at least one optional argument supplied or a non-SPC command set; distinct = distinct (method, "
-        "set, argument dict, response).")
+        "set, argument dict, response). Every method x set over a real device of either transport twice, with all clocks of the time module advanced by {0,1,299,301,3600,10^7} s in between: one command each, same CDB, the attached set's operation code.")
 ASSUMPTIONS = [
     "the recording device is a plain object with opcodes/execute/close: it notes call count, a copy of the CDB, id() of both buffers and whether cmd.result was already populated, then fills data-in in place",
     "decode *correctness* is C04's subject: here cmd.result must equal the decoder applied separately to a copy of what the device wrote (same keyword arguments), (the evidence counts the cases where that differs from the decode of an untouched zero buffer, i.e. where decoding before executing would be caught)",
@@ -377,6 +377,72 @@ def run_recovery(case, obs=None):
     return out
 
 
+IDLE_GAPS = (0, 1, 299, 301, 3600, 10 ** 7)     # seconds of no use between two calls (all clocks of the time module are owned by the harness)
+
+
+class FakeClock(object):
+    NAMES = ("monotonic", "time", "perf_counter")
+
+    def __init__(self):
+        import time
+        self.t = 1.0e6
+        self.saved = {n: getattr(time, n) for n in self.NAMES + tuple(n + "_ns" for n in self.NAMES)}
+        for n in self.NAMES:
+            setattr(time, n, lambda self=self: self.t)
+            setattr(time, n + "_ns", lambda self=self: int(self.t * 1e9))
+
+    def restore(self):
+        import time
+        for n, f in self.saved.items():
+            setattr(time, n, f)
+
+
+def run_idle(case, obs=None):
+    """the facade over a REAL device of either transport; the same call twice with the clocks advanced in between: both calls reach the
+    target exactly once with the same CDB carrying the operation code of the attached device's command set"""
+    from vf import harness
+    _, tr, st, method, gap = case
+    out = []
+    clock = FakeClock()
+    rig = None
+    try:
+        rig = harness.Rig(tr, F.SET_TO_TYPE[st])
+        s = rig.facade(512)
+        table = rig.dev.opcodes
+        resp = response_for(method, dict(F.FACADE[method][2]), 0)
+        rig.target.responder = lambda cdb: resp
+        key = F.FACADE[method][1]
+        lookup = "%s_OPCODE_%s" % (st.upper(), key) if key in ("9E", "A3") else key
+        seen = []
+        for i in (0, 1):
+            n0 = len(rig.target.log)
+            where = "%s on a %s %s device, %s" % (method, tr, st, "first call" if i == 0 else "same call after %d s without use" % gap)
+            try:
+                cmd = F.call(s, method)
+                oc = ("ok", bytes(cmd.cdb))
+            except Exception as e:   # noqa: BLE001
+                oc = ("raised", type(e).__name__, str(e)[:80])
+            new = rig.target.log[n0:]
+            seen.append((oc, [r["cdb"] for r in new]))
+            if len(new) != 1:
+                out.append(("idle/submissions/%s" % method, "%s: %d commands reached the target (%s)" % (where, len(new), oc[:2])))
+            elif new[0]["cdb"][0] != T.t10_value(st, lookup):
+                out.append(("idle/opcode/%s" % method, "%s: opcode %#04x sent, the %s set assigns %#04x" % (where, new[0]["cdb"][0], st, T.t10_value(st, lookup))))
+            if rig.dev.opcodes is not table:
+                out.append(("idle/table_replaced", "%s: the device's command set is no longer the one selected at attach" % where))
+            if i == 0:
+                clock.t += gap
+        if seen[0] != seen[1]:
+            out.append(("idle/differs/%s" % method, "%s on a %s %s device: %r at first, %r after %d s without use" % (method, tr, st, seen[0][0][:2], seen[1][0][:2], gap)))
+        if obs is not None:
+            obs.append((seen[0][0][0], len(seen[0][1]), len(seen[1][1])))
+    finally:
+        if rig is not None:
+            rig.close()
+        clock.restore()
+    return out
+
+
 def run_two(case, obs=None):
     """two facades over two devices alive at once (different command sets, different block sizes), used alternately:
     A.m, B.m', A.m - every call reaches its own device once, with its own device's operation code and its own facade's block size;
@@ -426,6 +492,8 @@ def run_two(case, obs=None):
 
 
 def run_case(case, obs=None):
+    if case[0] == "idle":
+        return run_idle(case, obs)
     if case[0] == "tools":
         from vf.props import c13_tools
         return c13_tools.run_tool(*c13_tools.SCRIPTS[case[1]], case[2])[0]
@@ -607,7 +675,7 @@ def replay(case):
 
 def partitions(tier):
     return ([[m] for m in F.FACADE] + [["transport", tr, m] for tr in ("sgio", "iscsi") for m in ("read10", "read12", "read16", "write10", "write12", "write16")]
-            + [["recovery"]] + [["two", m] for m in F.FACADE] + [["tools"]])
+            + [["recovery"]] + [["two", m] for m in F.FACADE] + [["tools"]] + [["idle", tr] for tr in ("sgio", "iscsi")])
 
 
 def run_partition(part, tier, seed):
@@ -645,6 +713,24 @@ def run_partition(part, tier, seed):
                     for k, w in v:
                         acc.violation(k, w, case)
                     acc.outcome((repr(case), tuple(obs), tuple(k for k, _ in v)))
+        return acc
+    if part[0] == "idle":
+        for m in F.FACADE:
+            for st in F.sets_offering(m):
+                for gap in IDLE_GAPS:
+                    case = ["idle", part[1], st, m, gap]
+                    acc.case(case, nontrivial=gap > 0, key=repr(case))
+                    obs = []
+                    try:
+                        v = run_case(case, obs)
+                    except Exception:
+                        import traceback
+                        v = [("harness_error", traceback.format_exc()[-600:])]
+                    for k, w in v:
+                        acc.violation(k, w, case)
+                    acc.outcome((repr(case[:4]), tuple(obs), tuple(k for k, _ in v)))
+                    acc.transitions += 2
+                    acc.traces += 1
         return acc
     if part[0] == "recovery":
         for m in RECOVERY_METHODS:
